@@ -104,6 +104,21 @@ def run(chk):
             if not (one == got or abs(one - got) <= 1e-12 * max(1.0, abs(got))):
                 chk.fail("single-sample score differs from in-batch score",
                          {"entry": "log_likelihood single vs batch", "x": hexlist(X[j]), "single": one, "batch": got})
+        # the likelihood follows the CURRENT parameters: after the machine has been used, re-assign weights (then means) and score again
+        if i % 4 == 2 and tiny is None:
+            w2 = gen.simplex(r, C)
+            m.weights = w2
+            got2 = np.asarray(m.log_likelihood(X))
+            lw2 = np.asarray(m.log_weighted_likelihood(X))
+            for j in range(N):
+                want2, lws2 = ref_ll(np.asarray(w2), np.asarray(m.means), V, X[j])
+                if not (abs(float(got2[j]) - want2) <= 1e-9 * max(1.0, abs(want2)) and np.allclose(lw2[:, j], lws2, rtol=1e-9, atol=1e-9)):
+                    chk.fail("after scoring, assigning new weights and scoring again the log-likelihood is not that of the new weights (got %r want %r)" % (float(got2[j]), want2),
+                             {"entry": "score; weights = ...; score", "old_weights": hexlist(w), "weights": hexlist(w2), "means": hexlist(m.means),
+                              "variances": hexlist(V), "shape": [C, D], "x": hexlist(X[j])})
+                    break
+            m.weights = np.asarray(w)
+            chk.count(1, key=("rescore-after-set-weights", C))
         # acc_stats log-likelihood is the sum
         st = m.acc_stats(X)
         if not abs(float(st.log_likelihood) - float(ll.sum())) <= 1e-9 * max(1.0, abs(float(ll.sum()))):
